@@ -49,3 +49,75 @@ def c18(case, f):
         if roots and roots <= (feat["same_alias_subqueries"] | feat["case_subquery_aliases"]):
             return "KF-23"
     return None
+
+
+def _cyto_diff(a, b):
+    import collections
+    import json
+
+    an = collections.Counter(json.dumps(x, sort_keys=True) for x in a["nodes"])
+    bn = collections.Counter(json.dumps(x, sort_keys=True) for x in b["nodes"])
+    ae = collections.Counter(tuple(x) for x in a["edges"])
+    be = collections.Counter(tuple(x) for x in b["edges"])
+    nodes = [json.loads(x) for x in list((an - bn).elements()) + list((bn - an).elements())]
+    edges = list((ae - be).elements()) + list((be - ae).elements())
+    return nodes, edges
+
+
+def c11(case, det):
+    """hash-seed dependent results: keyed on the input mechanism only (the outcome legitimately varies per process)"""
+    fields = set()
+    for v in det["fields"].values():
+        fields |= set(v)
+    a, b = det["a"], det["b"]
+    feat = _feat(case)
+    # KF-25: the same scalar-subquery text occurs under the select alias (THEN branch) and anonymously (WHEN branch) of one CASE:
+    # one SubQuery node (equality is textual) printed under whichever alias the set yields first
+    if feat["case_subquery_aliases"] and fields <= {"cyto_column", "column_paths"}:
+        names = set(feat["case_subquery_aliases"])
+        ok = True
+        if "cyto_column" in a:
+            nodes, edges = _cyto_diff(a["cyto_column"], b["cyto_column"])
+            for n in nodes:
+                txt = str(n.get("id", "")) + " " + str(n.get("parent", ""))
+                if not ("subquery#" in txt or any(txt.startswith(x) or (" " + x) in txt or x + "." in txt for x in names)):
+                    ok = False
+            for e in edges:
+                if not any("subquery#" in x or x.split(".")[0] in names for x in e):
+                    ok = False
+        if "column_paths" in a:
+            for p in [x for x in a["column_paths"] if x not in b["column_paths"]] + [x for x in b["column_paths"] if x not in a["column_paths"]]:
+                if not any("subquery#" in c or c.split(".")[0] in names for c in p):
+                    ok = False
+        if ok:
+            return "KF-25"
+    # KF-17: SELECT * over a join of tables whose metadata share a column name: the shared name is attributed to
+    # whichever table the set yields first
+    md = case.get("metadata") or {}
+    if md and "*" in case["sql"] and fields <= {"cyto_column", "column_paths"}:
+        shared = {}
+        for t, cols in md.items():
+            for c in cols:
+                shared.setdefault(c, set()).add(t)
+        shared = {c: ts for c, ts in shared.items() if len(ts) > 1}
+
+        def col_ok(cid):
+            t, _, c = cid.rpartition(".")
+            return c in shared and t in shared[c]
+
+        ok = bool(shared)
+        if "column_paths" in a:
+            for p in [x for x in a["column_paths"] if x not in b["column_paths"]] + [x for x in b["column_paths"] if x not in a["column_paths"]]:
+                if not col_ok(p[0]):
+                    ok = False
+        if "cyto_column" in a:
+            nodes, edges = _cyto_diff(a["cyto_column"], b["cyto_column"])
+            for n in nodes:
+                if not col_ok(str(n.get("id", ""))):
+                    ok = False
+            for e in edges:
+                if not col_ok(e[0]):
+                    ok = False
+        if ok:
+            return "KF-17"
+    return None
